@@ -9,7 +9,7 @@ def p_parts():
     from ._parts import p_parts as p_partnames
     from ._bookkeeping import p_bookkeeping
     from ._generic import optional_parts
-    return [p_append, p_partnames, p_bookkeeping] + optional_parts(("_partfiles", "p_partfiles"), ("_makemeta", "p_makemeta"))
+    return [p_append, p_partnames, p_bookkeeping] + optional_parts(("_partfiles", "p_partfiles"), ("_makemeta", "p_makemeta"), ("_pathconv", "p_read_partitions"), ("_pathconv", "p_part_id"), ("_cats", "p_cats"), ("_units", "p_units"))
 
 
 def run(ctx):
